@@ -117,24 +117,35 @@ theorem initState_gh (P : Problem α) (d0 : D) (pr : Params α) (stop : Nat → 
     | (injection h with h; subst h; exact initQub_gh P pr stop _ _ _ _ (gh_evalStep P pr _))
     | (exact absurd h (by simp))
 
+/-- the head's `ŷ` evaluation (eager mode) keeps the buffer invariant: under `YhatMode` the value written
+    is the one `ŷx̂` already held -/
+theorem headEvalYhat_gh (P : Problem α) (pr : Params α) (c : Iterate α) (hg : Good P pr c)
+    (h : GradHatCons P pr c) : GradHatCons P pr (headEvalYhat P pr c).1 := by
+  unfold headEvalYhat
+  split_ifs
+  · intro hm hh
+    show c.gradPsiHat = P.gradL c.xhat (P.psi c.xhat).2
+    rw [← hg.2 hm]; exact h hm hh
+  · exact h
+
 /-- At a loop head the buffer invariant is kept, and if the criterion reads `∇ψ(x̂)` the buffer is
     valid afterwards. -/
 theorem headStep_gh (P : Problem α) (pr : Params α) (stop : Nat → Bool) (oot : Bool) (s : St α D)
-    (h : GradHatCons P pr s.curr) :
+    (hg : Good P pr s.curr) (h : GradHatCons P pr s.curr) :
     GradHatCons P pr (headStep P pr stop oot s).1.curr ∧
     (requiresGradHat pr.stopCrit = true → (headStep P pr stop oot s).1.curr.haveGradHat = true) := by
-  unfold headStep
-  simp only []
+  have hy := headEvalYhat_gh P pr s.curr hg h
+  rw [(headStep_curr P pr stop oot s).1]
   by_cases hr : requiresGradHat pr.stopCrit = true
-  · by_cases hh : s.curr.haveGradHat = true
+  · by_cases hh : (headEvalYhat P pr s.curr).1.haveGradHat = true
     · simp only [hr, hh, Bool.not_true, Bool.and_false, Bool.false_eq_true, if_false]
-      exact ⟨h, fun _ => by first | exact hh | trivial⟩
-    · have hh' : s.curr.haveGradHat = false := by simpa using hh
+      exact ⟨hy, fun _ => by first | exact hh | trivial⟩
+    · have hh' : (headEvalYhat P pr s.curr).1.haveGradHat = false := by simpa using hh
       simp only [hr, hh', Bool.not_false, Bool.and_true, if_true]
       exact ⟨gh_evalGradPsiHat P pr _, fun _ => rfl⟩
   · have hr' : requiresGradHat pr.stopCrit = false := by simpa using hr
     simp only [hr', Bool.false_and, Bool.false_eq_true, if_false]
-    exact ⟨h, fun hc => absurd hc (by simp)⟩
+    exact ⟨hy, fun hc => absurd hc (by simp)⟩
 
 theorem iterBody_gh (P : Problem α) (dir : Direction D α) (pr : Params α) (stop : Nat → Bool)
     (s : St α D) (eps : α) (h : GradHatCons P pr s.curr) (hf : s.fuelOut = false)
@@ -205,7 +216,7 @@ theorem mainLoop_exit_inv {n m : Nat} (P : Problem α) (hPs : ProblemSized n m P
         rw [iterBody_fuelOut, hfh] at hf2; simpa using hf2
       have hh : HeadInv n m P pr (headStep P pr stop oot s).1 :=
         ⟨headStep_inv False True P pr stop oot s h.loop, (headStep_good P pr stop oot s h.good).1,
-          (headStep_gh P pr stop oot s h.grad).1, headStep_sized hPs pr stop oot s h.sized⟩
+          (headStep_gh P pr stop oot s h.good h.grad).1, headStep_sized hPs pr stop oot s h.sized⟩
       have hdh : DirOK n dir d0 (headStep P pr stop oot s).1.k (headStep P pr stop oot s).1.d := by
         rw [(headStep_d P pr stop oot s).1, (headStep_d P pr stop oot s).2]; exact hd
       exact ih _ ⟨iterBody_inv False True 0 0 (fun _ => 0) (fun _ => True) P dir d0 pr (fun hF => hF.elim) stop _ _
